@@ -24,6 +24,9 @@ class SpecOf(Shape):
 
     def make(self, ip, name):
         v = self.val.make(ip, "val") if isinstance(self.val, Shape) else ip.wrap(self.val)
+        if isinstance(v, C) and isinstance(v.v, list):
+            # a constant list argument (type names) is a container of the caller: as an executor list its stores are frame-checked
+            v = LList([C(i) for i in v.v], fresh=False)
         return LDict([(C(self.key), v)], fresh=False)
 
 
@@ -102,6 +105,9 @@ def family():
                             out.append((key, Const([tname, "float"]), cls, m, ("consts", (t, float))))
                         else:
                             out.append((key, Const(tname), cls, m, ("consts", (t,))))
+                            if dtype and m in ("in_", "not_in") and key == spellings(label, m)[0]:
+                                # membership among several types: a list of type names
+                                out.append((key, Const([tname, "float"]), cls, m, ("consts", ([t, float],))))
                     continue
                 if kind == "none":
                     out.append((key, Const(None), cls, m, ("none",)))
@@ -154,7 +160,7 @@ contract(
         "for v in spec_val":
             lambda k, xs, new_spec_val: len(new_spec_val) == k and is_prefix(new_spec_val, xs),
     },
-    serves=["C09"],
+    serves=["C09", "C16"],     # C16: every store the parser executes targets objects it created (the spec argument is not fresh)
     inline_at_calls=True,      # callers (the round-trip contracts) run the parser's body on their own symbolic value
 )
 
